@@ -150,7 +150,7 @@ Definition prop_c20_gw (input impl : val) : option Z :=
 Definition chk_c20_gw : val -> val := mk_chk run_c20_gw prop_c20_gw.
 
 (* ---------- C20, strict parser ----------
-   impl ( ) rejected | ( template ) ; no separate model: the specification is the grammar itself
+   impl ( ) rejected | ( template ) ; the model is Model/Strict.v; the property below is the grammar itself
    1: accepted something that is not (the rendering of) a well-formed template
    2: the rendering of a well-formed template was rejected or parsed into another structure
    3: a string of the language (recognised by the routing-parser model as a well-formed template) was rejected / parsed differently *)
@@ -182,8 +182,7 @@ Definition prop_c20_strict (input impl : val) : option Z :=
   | _ => if Z.eqb (as_Z (nthv 0 input)) 0 then Some 2
          else match recognised with Some _ => Some 3 | None => None end
   end.
-Definition chk_c20_strict (c : val) : val :=
-  match prop_c20_strict (nthv 0 c) (nthv 1 c) with Some r => verdict_propfail r (VL []) | None => verdict_ok end.
+(* chk_c20_strict: Model/Strict.v (the parser model and the checker built from it) *)
 
 (* ---------- C20, trie ----------
    input ( templates path ) ; impl ( ) | ( index ) : the template the trie returned for the path.
